@@ -39,7 +39,9 @@ typedef struct Map { Array a; } Map;
 #define BLK ((Data*)g_block)
 #define KV ((KeyVal*)(g_block + sizeof(Data)))
 static int compare(int a, int b) @@cmp@@
+#ifndef NMAXK
 #define NMAXK 8
+#endif
 /* keys strictly ascending (the representation invariant of Map): constant bound, expanded by the SAT back end */
 #define SORTED (BLK->n < 2 || KV[0].key < KV[1].key) && (BLK->n < 3 || KV[1].key < KV[2].key) && (BLK->n < 4 || KV[2].key < KV[3].key) && (BLK->n < 5 || KV[3].key < KV[4].key) \
             && (BLK->n < 6 || KV[4].key < KV[5].key) && (BLK->n < 7 || KV[5].key < KV[6].key) && (BLK->n < 8 || KV[6].key < KV[7].key)
@@ -105,7 +107,7 @@ __CPROVER_frees(g_block)
 @@set@@
 void vf_harness(void) { Map* m; int k, v; Map_set(m, k, v); VF_CANARY(); }
 """,
-    entry='Map_set', kind='bounded', bound='at most 8 keys before the call (capacity 8: the 9th insertion reallocates)', unwind=40, timeout=600,
+    entry='Map_set', kind='bounded', bound='at most 4 keys before the call (capacity 4: the 5th insertion reallocates)', unwind=40, timeout=600, variants={'': ['-DNMAXK=4']},
     desc='Map::set / operator(): finite-map update on every sorted map of 0..8 int keys: overwrite or sorted insertion, all other pairs kept, keys stay strictly ascending (= ascending enumeration)',
     functions=['Map::set', 'Map::indexOf', 'Array::insert'],
 )
